@@ -7,6 +7,7 @@ import (
 	"reflect"
 	"strconv"
 	"strings"
+	"unicode"
 
 	"github.com/segmentio/encoding/json"
 )
@@ -199,7 +200,22 @@ func mutateDoc(d []byte) []byte {
 	switch rndn(7) {
 	case 0: // replace a scalar-looking span by another scalar
 		return bytes.Replace(m, []byte(pick([]string{"0", "1", "true", "null", "\"\"", "[]", "{}"})), []byte(pick(jScalarsDocs)), 1)
-	case 1: // change the case of a key letter
+	case 1: // change the case of a key letter (ASCII), or of the whole document under Unicode case mapping / folding
+		switch rndn(4) {
+		case 0:
+			return []byte(strings.ToUpper(string(m)))
+		case 1:
+			return []byte(strings.ToLower(string(m)))
+		case 2: // next rune of each simple-folding orbit (K -> k -> Kelvin sign, s -> long s, ...), one rune in three
+			var o []rune
+			for _, r := range string(m) {
+				if r >= 0x41 && rndn(3) == 0 {
+					r = unicode.SimpleFold(r)
+				}
+				o = append(o, r)
+			}
+			return []byte(string(o))
+		}
 		for i := range m {
 			if m[i] >= 'a' && m[i] <= 'z' && rndn(6) == 0 {
 				m[i] -= 32
